@@ -4,7 +4,9 @@
 (* The value inserted by step i is 1000 + i; initial entries have value = key code.                    *)
 EXTENDS NameTree, Json
 CONSTANTS NB,        \* bases 1..NB
-          OpKinds,   \* subset of {"add", "addu", "rem", "sync"}; "sync" = persist the document and continue on the re-read tree
+          OpKinds,   \* subset of {"add", "addu", "addx", "rem", "sync"}; "sync" = persist the document and continue on the
+                     \* re-read tree; "addx" = insert a name whose value graph cannot be deleted (removing it fails)
+          Keeps,     \* subset of BOOLEAN: does the caller keep (TRUE) or drop (FALSE) a tree that became empty
           MaxLen,    \* history length
           MaxLevel,  \* bound on rename levels
           Inits,     \* initial trees (names in Shapes)
@@ -28,8 +30,8 @@ RECURSIVE ShapeKeys(_)
 ShapeKeys(s) == IF "leaf" \in DOMAIN s THEN s.leaf ELSE FlattenSeq([i \in 1..Len(s.kids) |-> ShapeKeys(s.kids[i])])
 InitMap(name) == LET ks == ShapeKeys(Shapes[name]) IN [k \in {ks[i] : i \in 1..Len(ks)} |-> k]
 
-VARIABLES init, pat, pos, hist, m, last      \* hist = sequence of ops, m = abstract map after hist, last = expectation of the last op
-vars == <<init, pat, pos, hist, m, last>>
+VARIABLES init, pat, keep, pos, hist, m, last      \* hist = sequence of ops, m = abstract map after hist, last = expectation of the last op
+vars == <<init, pat, keep, pos, hist, m, last>>
 
 PatBase(p, i) ==   \* base of the i-th insert (i = 0, 1, ...) under pattern p
   LET j == i % NB IN
@@ -40,27 +42,34 @@ PatBase(p, i) ==   \* base of the i-th insert (i = 0, 1, ...) under pattern p
 AddBases == IF pat = "rand" THEN 1..NB ELSE {PatBase(pat, pos)}
 
 (* one abstract step: the map after op o (the i-th op) applied to mm, and the expected observation *)
+(* values >= 5000 stand for value graphs whose deletion fails (dangling references): removing such a name in a     *)
+(* document context returns an error and must leave the tree as it was                                            *)
+Undeletable(v) == v >= 5000
+RemFails(mm, o) == o.op = "rem" /\ o.k \in DOMAIN mm /\ Undeletable(mm[o.k])
 StepMap(mm, o, i) == CASE o.op = "add"  -> AddPlain(mm, o.k, 1000 + i)
                        [] o.op = "addu" -> AddUniq(mm, BaseOf(o.k), 1000 + i)
-                       [] o.op = "rem"  -> Del(mm, o.k)
+                       [] o.op = "addx" -> AddPlain(mm, o.k, 5000 + i)
+                       [] o.op = "rem"  -> IF RemFails(mm, o) THEN mm ELSE Del(mm, o.k)
                        [] OTHER         -> mm               \* "sync": writing and re-reading changes nothing
 StepExp(mm, o, i) == LET m2 == StepMap(mm, o, i) IN
   [keys |-> SortedKeys(m2), vals |-> ValsOf(m2),
-   ok    |-> IF o.op = "rem" THEN o.k \in DOMAIN mm ELSE TRUE,
-   empty |-> IF o.op = "rem" THEN o.k \in DOMAIN mm /\ DOMAIN m2 = {} ELSE FALSE,
+   ok    |-> IF o.op = "rem" THEN o.k \in DOMAIN mm /\ ~RemFails(mm, o) ELSE TRUE,
+   empty |-> IF o.op = "rem" THEN o.k \in DOMAIN mm /\ ~RemFails(mm, o) /\ DOMAIN m2 = {} ELSE FALSE,
+   fail  |-> RemFails(mm, o),
    rk    |-> IF o.op = "addu" THEN UniqKey(mm, BaseOf(o.k)) ELSE o.k]
 RECURSIVE ExpsFrom(_, _, _)
 ExpsFrom(mm, h, i) == IF i > Len(h) THEN <<>> ELSE <<StepExp(mm, h[i], i)>> \o ExpsFrom(StepMap(mm, h[i], i), h, i + 1)
 
-Init == init \in Inits /\ pat \in Patterns /\ pos = 0 /\ hist = <<>> /\ m = InitMap(init) /\ last = <<>>
+Init == init \in Inits /\ pat \in Patterns /\ keep \in Keeps /\ pos = 0 /\ hist = <<>> /\ m = InitMap(init) /\ last = <<>>
 
 Do(o) == hist' = Append(hist, o) /\ m' = StepMap(m, o, Len(hist) + 1) /\ last' = <<StepExp(m, o, Len(hist) + 1)>>
 DoAdd  == "add" \in OpKinds /\ pos' = pos + 1 /\ \E b \in AddBases : Do([op |-> "add", k |-> Code(b, 0)])
 DoAddU == "addu" \in OpKinds /\ pos' = pos + 1 /\ \E b \in AddBases : HasFree(m, b, MaxLevel) /\ Do([op |-> "addu", k |-> Code(b, 0)])
+DoAddX == "addx" \in OpKinds /\ pos' = pos /\ \E b \in 1..NB, l \in 0..1 : Do([op |-> "addx", k |-> Code(b, l)])
 DoRem  == "rem" \in OpKinds /\ pos' = pos /\ \E k \in {Code(b, 0) : b \in 1..NB} \cup DOMAIN m : Do([op |-> "rem", k |-> k])
 (* persist + reload at any point of the history (never twice in a row) *)
 DoSync == "sync" \in OpKinds /\ pos' = pos /\ (IF hist = <<>> THEN TRUE ELSE hist[Len(hist)].op # "sync") /\ Do([op |-> "sync", k |-> 0])
-Next == Len(hist) < MaxLen /\ (DoAdd \/ DoAddU \/ DoRem \/ DoSync) /\ UNCHANGED <<init, pat>>
+Next == Len(hist) < MaxLen /\ (DoAdd \/ DoAddU \/ DoAddX \/ DoRem \/ DoSync) /\ UNCHANGED <<init, pat, keep>>
 Spec == Init /\ [][Next]_vars
 
 (* design properties of the abstract model (evaluated on complete histories) *)
@@ -75,8 +84,8 @@ ModelOK == Complete => LET e == Exps IN
 (* "state" mode: the expectation carried by the state is the one the stepwise evaluation gives *)
 LastOK == Complete /\ hist # <<>> => last = <<Exps[Len(hist)]>>
 
-EmitCase == CASE Emit = "leaf"  -> (Complete => PrintT(<<"CASE", ToJson([init |-> init, pat |-> pat, ops |-> hist, exp |-> Exps])>>))
-              [] Emit = "state" -> PrintT(<<"CASE", ToJson([init |-> init, pat |-> pat, ops |-> hist, exp |-> last])>>)
+EmitCase == CASE Emit = "leaf"  -> (Complete => PrintT(<<"CASE", ToJson([init |-> init, pat |-> pat, keep |-> keep, ops |-> hist, exp |-> Exps])>>))
+              [] Emit = "state" -> PrintT(<<"CASE", ToJson([init |-> init, pat |-> pat, keep |-> keep, ops |-> hist, exp |-> last])>>)
               [] OTHER          -> TRUE
 ASSUME Emit # "off" => PrintT(<<"SHAPES", ToJson(Shapes)>>)
 =============================================================================
